@@ -257,6 +257,17 @@ class Driver:
         h.closing = True
         return e
 
+    def op_unregister_all(self, op):
+        """The application withdraws everything it registered and keeps the instance (AsyncZeroconf's public
+        async_unregister_all_services)."""
+        h = self._host(op)
+        if h.azc is None or not h.alive:
+            return None
+        for (hn, nm) in list(self.infos):
+            if hn == h.name:
+                self._withdrawn[(hn, nm)] = True
+        return self.w.spawn(h, "unregister_all", h.azc.async_unregister_all_services, None)
+
     def op_crash(self, op):
         self._host(op).crash()
 
